@@ -130,6 +130,28 @@ def rule_bind_thread(db: ProgramDB) -> List[Instance]:
     return out
 
 
+def _on_every_path_to(db: ProgramDB, x: ast.AST, site: ast.AST, loop: ast.AST) -> bool:
+    """x (inside `loop`, before `site`) is executed on every path from the head of the loop to `site`: every branch that contains x
+    contains the site as well (same arm)."""
+    def chain(n):
+        res = []
+        ch, p = n, db.parent(n)
+        while p is not None and ch is not loop:
+            if isinstance(p, (ast.If, ast.Try, ast.For, ast.While, ast.With)):
+                for fld in ("body", "orelse", "finalbody", "handlers"):
+                    blk = getattr(p, fld, None) or []
+                    if any(b is ch for b in blk):
+                        res.append((id(p), fld))
+                if isinstance(p, ast.ExceptHandler):
+                    pass
+            if isinstance(p, ast.ExceptHandler):
+                res.append((id(p), "handler"))
+            ch, p = p, db.parent(p)
+        return res
+    cs = set(chain(site))
+    return all(c in cs or c[0] == id(loop) for c in chain(x))
+
+
 def _carries_incoming(db: ProgramDB, model: SiteModel) -> List[Instance]:
     """A child evaluated under the incoming binding yields rows that hold what the child bound - not necessarily the incoming
     binding itself (a boolean attribute / method call / predicate over a variable that is not bound yet yields only what it
@@ -165,6 +187,8 @@ def _carries_incoming(db: ProgramDB, model: SiteModel) -> List[Instance]:
             for x in ast.walk(inner):
                 if getattr(x, "lineno", 0) > s.line:
                     continue
+                if isinstance(x, (ast.Call, ast.Assign)) and not _on_every_path_to(db, x, s.call, inner):
+                    continue        # made in a branch the site is not in: not made on the way to the site
                 if isinstance(x, ast.Call) and isinstance(x.func, ast.Attribute) and x.func.attr == "update" and isinstance(x.func.value, ast.Name) \
                         and x.args and names_in(x.args[0]) & carriers and x.func.value.id not in carriers:
                     carriers.add(x.func.value.id)
